@@ -12,6 +12,7 @@ Ltac fin := repeat match goal with
   | p : ptype |- _ => destruct p
   | m : method |- _ => destruct m
   | k : cls |- _ => destruct k
+  | o : option ptype |- _ => destruct o
   end.
 
 (* ---- (a) the tables ---- *)
@@ -47,7 +48,7 @@ Qed.
 (* ---- one step ---- *)
 Lemma step_follows_doc : forall s o, op_claimed o = true -> step observed s o = step documented s o.
 Proof.
-  intros s o H. destruct o as [p clip | k clip | m | s'].
+  intros s o H. destruct o as [p clip | k po clip | m | s'].
   - fin; reflexivity.
   - fin; try discriminate H; reflexivity.
   - fin; reflexivity.
@@ -56,7 +57,7 @@ Qed.
 
 Lemma refused_step_keeps_state : forall s (o : op cls) e k, step observed s o = Raises e k -> k = s.
 Proof.
-  intros s o e k H. destruct o as [p clip | c clip | m | s']; [| | | discriminate H];
+  intros s o e k H. destruct o as [p clip | c po clip | m | s']; [| | | discriminate H];
     fin; cbn in H; try discriminate H; inversion H; reflexivity.
 Qed.
 
@@ -88,7 +89,7 @@ Qed.
 Lemma step_types : forall s o, op_claimed o = true -> is_fft o = false ->
   erase (step observed s o) = tstep (ty s) o /\ ty (next (step observed s o)) = tnext (tstep (ty s) o).
 Proof.
-  intros s o H F. destruct o as [p clip | k clip | m | s'].
+  intros s o H F. destruct o as [p clip | k po clip | m | s'].
   - fin; split; reflexivity.
   - fin; try discriminate H; split; reflexivity.
   - fin; try discriminate F; split; reflexivity.
@@ -113,7 +114,7 @@ Lemma step_types_untilted : forall s o, op_claimed o = true -> untilting o = tru
   ty (next (step observed s o)) = tnext (tstep (ty s) o) /\
   tilted (next (step observed s o)) = false.
 Proof.
-  intros s o H U T. destruct o as [p clip | k clip | m | s'].
+  intros s o H U T. destruct o as [p clip | k po clip | m | s'].
   - fin; try discriminate T; repeat split; reflexivity.
   - fin; try discriminate H; try discriminate T; try discriminate U; repeat split; reflexivity.
   - fin; try discriminate T; repeat split; reflexivity.
@@ -138,7 +139,7 @@ Definition class_applies (k : cls) (p : ptype) : Prop :=
   observed_class_ptype k = p /\
   (exists w, doc_mul w p <> None) /\
   (forall w t b clip, doc_mul w p = Some t ->
-     exists b', observed_class_mul k clip (St w b) = Yields (St t b')).
+     exists b', observed_class_mul k None clip (St w b) = Yields (St t b')).
 
 Lemma documented_classes_apply_partial : forall k p,
   doc_class_ptype k = Some p -> known_broken k = false -> class_applies k p.
@@ -152,10 +153,14 @@ Qed.
 
 Lemma rotate_flip_refuted : forall k, known_broken k = true ->
   doc_class_ptype k = Some PTransform /\ observed_class_ptype k = PNone /\
-  forall clip s, observed_class_mul k clip s = Raises EAttributeError s.
+  forall clip s, observed_class_mul k None clip s = Raises EAttributeError s.
 Proof.
   intros k B. destruct k; cbn in B; try discriminate B; repeat split; intros; fin; reflexivity.
 Qed.
+
+(* the documented ptype override of a class constructor gives an instance of that ptype *)
+Lemma ptype_override_is_honoured : forall k p q, observed_override_ptype k p = Some q -> q = p.
+Proof. intros k p q H. destruct k, p; cbn in H; try discriminate H; inversion H; reflexivity. Qed.
 
 Lemma documented_classes_apply_refuted :
   ~ (forall k p, doc_class_ptype k = Some p -> class_applies k p).
@@ -165,4 +170,4 @@ Qed.
 
 Lemma programs_with_rotate_refuted :
   exists s ops, run_program observed s ops <> run_program documented s ops.
-Proof. exists (St WPupil Plain), [MulClass KRotate false]. cbn. discriminate. Qed.
+Proof. exists (St WPupil Plain), [MulClass KRotate None false]. cbn. discriminate. Qed.
